@@ -9,7 +9,7 @@
    of the Go memory model; what is proved is the absence of conflicting unsynchronised accesses in
    that table - the race detector run of the harness is the schedule search (design/C18.md). *)
 From Coq Require Import List String Bool Arith.
-From Storage Require Import Db.Mvcc Db.MvccProofs Db.MvccKeepProofs Db.Access Db.AccessProofs Db.Workload Db.WorkloadProofs.
+From Storage Require Import Db.Mvcc Db.MvccProofs Db.MvccKeepProofs Db.MvccFailProofs Db.Access Db.AccessProofs Db.Workload Db.WorkloadProofs.
 Import ListNotations.
 
 (* Every read transaction observes exactly one committed state: each answer is the evaluation of
@@ -76,3 +76,30 @@ Theorem kept_observations_persist :
              /\ exists newer, r_obs query answer r' = newer ++ r_obs query answer r.
 Proof. exact kept_observations_persist_lemma. Qed.
 Print Assumptions kept_observations_persist.
+
+(* A writer transaction that fails leaves no trace, wherever it stands in the schedule: if [w] fails on the
+   newest version when its turn comes ([apply_tx w] answers [None] - whatever it wrote before it failed), the
+   run with it IS the run without it - the same versions, the same readers with the same observations, for
+   every prefix [es1] and every continuation [es2] of reader steps and writer transactions.  (The harness
+   lets transactions fail part-way - after entity, index and link writes - through Db.Update and Db.Batch,
+   alone and coalesced with other callers, next to the readers: case lines "W 0 .. fail <kind> <k>".) *)
+Theorem failed_transaction_leaves_no_trace :
+  forall (state query answer : Type) (eval : query -> state -> answer)
+         (wtx : Type) (apply_tx : wtx -> state -> option state)
+         (s : sys state query answer) (es1 : list (event query wtx)) (w : wtx) (es2 : list (event query wtx)),
+  let s1 := run state query answer eval wtx apply_tx s es1 in
+  (forall st, nth_error (versions state query answer s1) (current state query answer s1) = Some st -> apply_tx w st = None) ->
+  run state query answer eval wtx apply_tx s (es1 ++ ECommit query wtx w :: es2)
+  = run state query answer eval wtx apply_tx s (es1 ++ es2).
+Proof. exact failed_transaction_leaves_no_trace_lemma. Qed.
+Print Assumptions failed_transaction_leaves_no_trace.
+
+(* ... and it is not a version of the serial execution the readers' answers are compared with: the version
+   sequence does not advance on a failed transaction. *)
+Theorem failed_transaction_not_a_version :
+  forall (state : Type) (wtx : Type) (apply_tx : wtx -> state -> option state)
+         (v0 : state) (ws1 : list wtx) (w : wtx) (ws2 : list wtx),
+  apply_tx w (last (serial state wtx apply_tx v0 ws1) v0) = None ->
+  serial_versions state wtx apply_tx v0 (ws1 ++ w :: ws2) = serial_versions state wtx apply_tx v0 (ws1 ++ ws2).
+Proof. exact failed_transaction_not_a_version_lemma. Qed.
+Print Assumptions failed_transaction_not_a_version.
